@@ -39,9 +39,12 @@ Proof. repeat split; reflexivity. Qed.
    (evaluated by the kernel on the witnesses that used to panic or hang) *)
 Definition outcome (parts : list str) : N :=
   match parse parts with Ok _ => 0%N | Exit2 _ => 2%N | Panic _ => 101%N | Hang _ => 124%N | OutOfFuel => 125%N end.
+(* (the text of the last witness, a COUNT of everything grouped by an unclosed LOWER call, is written in two pieces:
+   coqdep reads a bracket followed by a star inside a string literal as the start of a comment and then misses every
+   Require below it) *)
 Theorem C10_former_crashes_are_parse_errors :
   map outcome [ [s "/tmp"]; [s "name from d order by 0"]; [s "name from d order by 5"]; [s "name from d order by desc"];
-                [s "name from d where size =< 3"]; [s "count(*) from d group by lower( 5"] ]%string
+                [s "name from d where size =< 3"]; [(s "count(" ++ s "*) from d group by lower( 5")%list] ]%string
   = [2; 2; 2; 2; 2; 2]%N.
 Proof. vm_compute. reflexivity. Qed.
 
